@@ -52,6 +52,7 @@ def gen_history(rng, phens, cache, n_ops, data_hi=4, p_remote=0.4):
     pats = {(ph, p['name']): p for ph, ps in phens for p in ps}
     ops, last_out = [], 'T[]'
     finished = []       # records seen finished (for stale replays)
+    named_finished = []  # records this decider was TOLD are finished (remote completed/halted lists, foreign ids included)
     seen = []           # every record ever seen
     fid = 0
     t = 0
@@ -83,6 +84,11 @@ def gen_history(rng, phens, cache, n_ops, data_hi=4, p_remote=0.4):
                     lists[rng.choice('CH')].append(base)
                     if rng.random() < 0.3:       # merged message: also named as updated
                         lists['U'].append(base)
+                elif kind == 'stale' and named_finished and rng.random() < 0.5:
+                    # an overtaken update for a run the instance was already told is finished (under whatever id)
+                    r0 = rng.choice(named_finished).split('|')
+                    r0[3] = '1'
+                    lists['U'].append('|'.join(r0[:4] + [r0[4].split(';')[0].split('.')[0]]))
                 elif kind == 'stale' and (finished or seen):
                     # a finished run named again (C/H), or an old position of some run named as updated
                     # (well-formed: a record in the updated list is always inside the block list)
@@ -107,6 +113,13 @@ def gen_history(rng, phens, cache, n_ops, data_hi=4, p_remote=0.4):
                 t += 1
         out = rd.do(op)
         ops.append(op)
+        if op.startswith('rem '):
+            cur_l = None
+            for x in op.split()[1:]:
+                if x in ('C', 'H', 'U'):
+                    cur_l = x
+                elif cur_l in ('C', 'H') and x.split('|')[1:3] != ['nophen', 'nopat']:
+                    named_finished.append(x)
         if out == 'X':
             break
         last_out = out
